@@ -17,6 +17,7 @@ FAMILY = {
     "scheme::target_scheme::placeholder": ("FormatField", "CompileError::UnsupportedFormat"),
     "scheme::target_scheme::snippet": ("FormatField", "CompileError::UnsupportedFormat"),
     "<PositionalOption as TargetScheme>::compile": ("PositionalOption", "CompileError::UnsupportedOption"),
+    "scheme::target_scheme::literal": ("FormatSpecial", "CompileError::UnsupportedFormat"),
 }
 # supported/unsupported partition (LiPE capabilities as documented by the comments in target_scheme.rs; frozen after reading)
 UNSUPPORTED = {
@@ -24,6 +25,7 @@ UNSUPPORTED = {
     "Action": ["Prune", "List", "FileList"],
     "FormatField": ["Depth", "DeviceNumber", "FsType", "SymbolicTarget", "PermissionsSymbolic", "TypeSymlink", "SecurityContext"],
     "PositionalOption": ["XDev"],
+    "FormatSpecial": ["Clear"],
 }
 
 
@@ -215,5 +217,5 @@ def run(c, facts, tier):
         m = re.match(r"self∈Expression::(\w+)", key)
         if m and not row["outcome"].startswith("panic"):
             c.ob("C12.early", "<Expression as TargetScheme>::compile", m.group(1), row["outcome"] == "sub" and len(row["tokens"]) == 1, "Expression::%s delegates to its payload's compile and returns its result (%s)" % (m.group(1), row["outcome"]), nontrivial=False)
-    c.floor("variants partitioned", total, 38 + 12 + 37 + 1)
+    c.floor("variants partitioned", total, 38 + 12 + 37 + 37 + 1 + 11)
     c.control("C12.no-placeholder", bool(PLACEHOLDER_WORDS.search("( UNIMPLEMENTED )")), "fixture `(UNIMPLEMENTED)` is recognised as placeholder text")
